@@ -36,6 +36,8 @@ import (
 
 const (
 	sigServer   = "C26.server-subscription-dies-with-channel"
+	sigNoAck    = "C26.republished-never-acknowledged"
+	sigGap      = "C26.republish-gives-up-at-gap"
 	sigRecreate = "C26.recreate-failure-ignored"
 )
 
@@ -476,6 +478,8 @@ type segment struct {
 	done    int
 	closed  bool
 	resumed bool
+	// ids of a TransferSubscriptions request the server accepted (all transferred)
+	transferred []uint32
 }
 
 func segments(evs []xsubs.Event) []*segment {
@@ -545,6 +549,15 @@ func (s *segment) steps() (string, bool) {
 				return "", false
 			}
 		case 5:
+			if len(s.transferred) > 0 {
+				// the server transferred every subscription: all are republished
+				ids := make([]string, len(s.transferred))
+				for j, f := range s.transferred {
+					ids[j] = fmt.Sprint(f)
+				}
+				out = append(out, "T:"+strings.Join(ids, ",")+":r"+strings.Repeat("0", len(ids)))
+				continue
+			}
 			// the gopcua server answers TransferSubscriptions with BadServiceUnsupported:
 			// all ids are recreated in the order SubscriptionIDs() returned them
 			ids := make([]string, len(s.forgets))
@@ -557,6 +570,10 @@ func (s *segment) steps() (string, bool) {
 			}
 			out = append(out, "T:"+l+":u")
 		case 4:
+			if len(s.transferred) > 0 && len(s.forgets) == 0 {
+				out = append(out, "P:"+strings.Repeat("1", len(s.transferred))+":-")
+				continue
+			}
 			var recs []string
 			for _, f := range s.forgets {
 				if nid, ok := s.created[f]; ok {
@@ -590,6 +607,10 @@ type scenResult struct {
 	serverDeleted int
 	// data publishes the server believes it sent after the fault
 	serverSent int
+	// transfer + republish against a server with a retransmission queue
+	rt          *retransInfo
+	republished map[uint32][]int32 // values the application received during the republish, per subscription
+	nextAfter   map[uint32]uint32  // Subscription.nextSeq after the republish
 }
 
 func drainAll(subs []*subRec) {
@@ -637,10 +658,26 @@ type backend interface {
 	// the value val and has the server publish it.
 	Change(sub *opcua.Subscription, handle uint32, v int, val int32) error
 	Fault(kind string) error
-	PublishAfter() int  // PublishRequests seen after the fault
-	ServerDeleted() int // subscriptions the server deleted after the fault
-	ServerSent() int    // publish responses (data or keep-alive) the server believes it sent after the fault
+	PublishAfter() int     // PublishRequests seen after the fault
+	ServerDeleted() int    // subscriptions the server deleted after the fault
+	ServerSent() int       // publish responses (data or keep-alive) the server believes it sent after the fault
+	Retrans() *retransInfo // what a server with a retransmission queue saw (nil otherwise)
 	Close()
+}
+
+// retransInfo: the scripted server's view of a transfer + republish.
+type retransInfo struct {
+	transferred []uint32            // ids of the accepted TransferSubscriptions request
+	nextBefore  map[uint32]uint32   // per subscription: the sequence number after the last one the client received
+	queue       map[uint32][]retMsg // per subscription: notifications sent but lost with the connection
+	requested   map[uint32][]uint32 // per subscription: RetransmitSequenceNumber of every RepublishRequest
+	acked       map[[2]uint32]int   // (subscription, sequence number) → how often it was acknowledged after the fault
+}
+
+type retMsg struct {
+	seq    uint32
+	handle uint32
+	val    int32
 }
 
 // realBackend: the gopcua server of /repo/server behind a cutting TCP proxy.
@@ -727,6 +764,7 @@ func (b *realBackend) ServerSent() int {
 	defer b.mu.Unlock()
 	return b.sent
 }
+func (b *realBackend) Retrans() *retransInfo { return nil }
 func (b *realBackend) Close() {
 	server.VerifSetHook(nil)
 	b.px.Close()
@@ -753,6 +791,8 @@ type scriptedBackend struct {
 	nextSub      uint32
 	nextItem     uint32
 	sessionValid bool
+	transferOK   bool
+	rt           *retransInfo
 }
 
 type heldPub struct {
@@ -776,8 +816,43 @@ func newScriptedBackend() (*scriptedBackend, error) {
 			b.held = append(b.held, heldPub{c, reqID, r, time.Now()})
 			if b.faulted {
 				b.after++
+				if b.rt != nil {
+					for _, a := range req.SubscriptionAcknowledgements {
+						b.rt.acked[[2]uint32{a.SubscriptionID, a.SequenceNumber}]++
+					}
+				}
 			}
 			return nil
+		case *ua.TransferSubscriptionsRequest:
+			if !b.transferOK {
+				break
+			}
+			res := make([]*ua.TransferResult, len(req.SubscriptionIDs))
+			for i, id := range req.SubscriptionIDs {
+				if _, ok := b.subs[id]; !ok {
+					res[i] = &ua.TransferResult{StatusCode: ua.StatusBadSubscriptionIDInvalid, AvailableSequenceNumbers: []uint32{}}
+					continue
+				}
+				av := []uint32{}
+				for _, m := range b.rt.queue[id] {
+					av = append(av, m.seq)
+				}
+				res[i] = &ua.TransferResult{StatusCode: ua.StatusOK, AvailableSequenceNumbers: av}
+			}
+			b.rt.transferred = append([]uint32(nil), req.SubscriptionIDs...)
+			return &ua.TransferSubscriptionsResponse{ResponseHeader: xsubs.Hdr(r, ua.StatusOK), Results: res, DiagnosticInfos: []*ua.DiagnosticInfo{}}
+		case *ua.RepublishRequest:
+			if b.rt == nil {
+				break
+			}
+			b.rt.requested[req.SubscriptionID] = append(b.rt.requested[req.SubscriptionID], req.RetransmitSequenceNumber)
+			for _, m := range b.rt.queue[req.SubscriptionID] {
+				if m.seq == req.RetransmitSequenceNumber {
+					resp := xsubs.DataResponse(r, req.SubscriptionID, m.seq, 1, nil, m.handle, m.val)
+					return &ua.RepublishResponse{ResponseHeader: xsubs.Hdr(r, ua.StatusOK), NotificationMessage: resp.NotificationMessage}
+				}
+			}
+			return xsubs.Fault(r, ua.StatusBadMessageNotAvailable)
 		case *ua.CreateSessionRequest:
 			b.sessionValid = true
 		case *ua.ActivateSessionRequest:
@@ -869,12 +944,41 @@ func (b *scriptedBackend) Fault(kind string) error {
 	b.mu.Lock()
 	b.faulted = true
 	b.held = nil
-	if kind == "session-scripted" {
+	if kind == "session-scripted" || kind == "transfer-scripted" || kind == "transfer-gap-scripted" {
 		b.sessionValid = false
+	}
+	if kind == "transfer-scripted" || kind == "transfer-gap-scripted" {
+		// the server supports TransferSubscriptions and keeps a retransmission queue:
+		// two notifications per subscription were sent on the connection that is
+		// about to die (the client never sees them); with "gap" the oldest of them has
+		// already been dropped from the queue
+		b.transferOK = true
+		b.rt = &retransInfo{nextBefore: map[uint32]uint32{}, queue: map[uint32][]retMsg{}, requested: map[uint32][]uint32{}, acked: map[[2]uint32]int{}}
+		for id, items := range b.subs {
+			var hd uint32
+			for x := range items {
+				if hd == 0 || x < hd {
+					hd = x
+				}
+			}
+			b.rt.nextBefore[id] = b.seq[id] + 1
+			for k := 0; k < 2; k++ {
+				b.seq[id]++
+				if kind == "transfer-gap-scripted" && k == 0 {
+					continue
+				}
+				b.rt.queue[id] = append(b.rt.queue[id], retMsg{b.seq[id], hd, int32(5000 + 10*int(id) + k)})
+			}
+		}
 	}
 	b.mu.Unlock()
 	b.srv.DropConns()
 	return nil
+}
+func (b *scriptedBackend) Retrans() *retransInfo {
+	b.mu.Lock()
+	defer b.mu.Unlock()
+	return b.rt
 }
 func (b *scriptedBackend) PublishAfter() int {
 	b.mu.Lock()
@@ -890,7 +994,7 @@ func (e *env) scenario(kind string, nsubs, nitems int) *scenResult {
 	nvars := nsubs * nitems
 	var be backend
 	var err error
-	if kind == "cut-scripted" || kind == "session-scripted" {
+	if strings.HasSuffix(kind, "-scripted") {
 		be, err = newScriptedBackend()
 	} else {
 		be, err = newRealBackend(nvars)
@@ -992,6 +1096,38 @@ func (e *env) scenario(kind string, nsubs, nitems int) *scenResult {
 	res.nAfter = len(c.VerifSubs())
 	res.publishAfter = be.PublishAfter()
 
+	if rt := be.Retrans(); rt != nil {
+		res.rt = rt
+		for _, sg := range res.segs {
+			sg.transferred = rt.transferred
+		}
+		// what the application received while the client republished
+		res.republished = map[uint32][]int32{}
+		for _, s := range subs {
+			for {
+				var m *opcua.PublishNotificationData
+				select {
+				case m = <-s.ch:
+				default:
+				}
+				if m == nil {
+					break
+				}
+				if dc, ok := m.Value.(*ua.DataChangeNotification); ok && m.Error == nil {
+					for _, it := range dc.MonitoredItems {
+						if x, ok := it.Value.Value.Value().(int32); ok {
+							res.republished[s.sub.SubscriptionID] = append(res.republished[s.sub.SubscriptionID], x)
+						}
+					}
+				}
+			}
+			_, nx := s.sub.VerifSeq()
+			if res.nextAfter == nil {
+				res.nextAfter = map[uint32]uint32{}
+			}
+			res.nextAfter[s.sub.SubscriptionID] = nx
+		}
+	}
 	// ---- the property's own oracle: every subscription that was active keeps
 	// delivering data changes for all of its monitored items
 	drainAll(subs)
@@ -1016,10 +1152,96 @@ func (e *env) scenario(kind string, nsubs, nitems int) *scenResult {
 			}
 		}
 	}
+	if be.Retrans() != nil {
+		// let the PublishRequest that follows the last delivery arrive: it is the last
+		// one in which an acknowledgement could still show up
+		n := be.PublishAfter()
+		xsubs.WaitFor(1500*time.Millisecond, func() bool { return be.PublishAfter() > n || be.PublishAfter() >= nvars+1 })
+	}
 	res.serverDeleted = be.ServerDeleted()
 	res.serverSent = be.ServerSent()
 	res.publishAfter = be.PublishAfter()
 	return res
+}
+
+func u32s(l []uint32) string {
+	if len(l) == 0 {
+		return "-"
+	}
+	p := make([]string, len(l))
+	for i, x := range l {
+		p[i] = fmt.Sprint(x)
+	}
+	return strings.Join(p, ",")
+}
+
+// republishChecks: the transfer + republish part of a scenario against the scripted
+// server with a retransmission queue.
+func (e *env) republishChecks(name string, res *scenResult) {
+	rt := res.rt
+	var ids []uint32
+	for id := range rt.queue {
+		ids = append(ids, id)
+	}
+	sort.Slice(ids, func(i, j int) bool { return ids[i] < ids[j] })
+	for _, id := range ids {
+		q := rt.queue[id]
+		var seqs []uint32
+		valOf := map[int32]uint32{}
+		for _, m := range q {
+			seqs = append(seqs, m.seq)
+			valOf[m.val] = m.seq
+		}
+		// ---- model: the real loop's requests, deliveries and final nextSeq
+		var del []uint32
+		for _, v := range res.republished[id] {
+			if sq, ok := valOf[v]; ok {
+				del = append(del, sq)
+			} else {
+				del = append(del, 0) // something that is not in the queue was delivered
+			}
+		}
+		line := fmt.Sprintf("republish %s %s %d", u32s(seqs), u32s(seqs), rt.nextBefore[id])
+		impl := fmt.Sprintf("delivered=%s requested=%s next=%d outcome=done ok=1", u32s(del), u32s(rt.requested[id]), res.nextAfter[id])
+		e.r.Count(name+" "+line, true)
+		e.r.Hit("republish:loop")
+		e.r.Compare(e.d, line, impl)
+		e.r.Sample(name + ": " + line + " -> " + impl)
+		// ---- own oracle 1: every notification the server still holds is delivered,
+		// once, in order
+		want := u32s(seqs)
+		if u32s(del) != want {
+			detail := fmt.Sprintf("%s: subscription %d expected message %d next; the server holds %s in its retransmission queue; RepublishRequests for %s; delivered to the application: %s",
+				name, id, rt.nextBefore[id], want, u32s(rt.requested[id]), u32s(del))
+			sig := ""
+			if len(seqs) > 0 && seqs[0] > rt.nextBefore[id] && len(del) == 0 && u32s(rt.requested[id]) == fmt.Sprint(rt.nextBefore[id]) {
+				sig = sigGap
+			}
+			e.r.Fail(name, sig, detail)
+			if sig != "" {
+				e.r.Confirm(sig, detail)
+			}
+		} else {
+			e.r.Hit("republish:all-held-delivered-once")
+		}
+		// ---- own oracle 2: each notification the client received is acknowledged exactly once
+		for _, sq := range del {
+			n := rt.acked[[2]uint32{id, sq}]
+			if n == 1 {
+				e.r.Hit("republish:acknowledged-once")
+				continue
+			}
+			detail := fmt.Sprintf("%s: republished notification %d/%d was handed to the application and acknowledged %d times in the %d PublishRequests that followed", name, id, sq, n, res.publishAfter)
+			sig := ""
+			if n == 0 && res.publishAfter >= 2 {
+				sig = sigNoAck
+			}
+			e.r.Fail(name, sig, detail)
+			if sig != "" {
+				e.r.Confirm(sig, detail)
+			}
+		}
+	}
 }
 
 func sortReg(s string) string {
@@ -1101,6 +1323,9 @@ func (e *env) runScenario(kind string, nsubs, nitems int) {
 	}
 	e.r.Sample(fmt.Sprintf("%s: %s -> %s | publish requests after reconnect=%d missing=%v", name, line, impl, res.publishAfter, res.missing))
 
+	if res.rt != nil {
+		e.republishChecks(name, res)
+	}
 	if len(res.missing) == 0 {
 		e.r.Hit("oracle:all-items-deliver")
 		return
@@ -1178,11 +1403,11 @@ func main() {
 		kind string
 		a, b int
 	}
-	list := []sc{{"cut-scripted", 1, 1}, {"cut-scripted", 2, 2}, {"session-scripted", 2, 2}, {"cut", 1, 1}, {"cut", 2, 2}, {"restart", 1, 2}, {"restart", 5, 1}, {"restart", 2, 1}}
+	list := []sc{{"cut-scripted", 1, 1}, {"cut-scripted", 2, 2}, {"session-scripted", 2, 2}, {"transfer-scripted", 2, 1}, {"transfer-gap-scripted", 1, 1}, {"cut", 1, 1}, {"cut", 2, 2}, {"restart", 1, 2}, {"restart", 5, 1}, {"restart", 2, 1}}
 	if o.Thorough() {
 		for i := 0; i < 12; i++ {
-			k := e.rnd.Pick(0, 1, 2, 3)
-			kinds := []string{"cut", "restart", "cut-scripted", "session-scripted"}
+			k := e.rnd.Pick(0, 1, 2, 3, 4, 5)
+			kinds := []string{"cut", "restart", "cut-scripted", "session-scripted", "transfer-scripted", "transfer-gap-scripted"}
 			list = append(list, sc{kinds[k], 1 + e.rnd.Intn(3), 1 + e.rnd.Intn(3)})
 		}
 	}
@@ -1229,7 +1454,7 @@ func main() {
 	}
 	for _, b := range []string{"acks:length-mismatch", "acks:matched", "acks:status-o", "acks:status-i", "acks:status-u", "acks:status-x",
 		"notif:keepalive", "notif:data-in-order", "notif:data-gap", "notif:seq-wrap", "notif:unknown-sub",
-		"round:data", "round:keepalive", "round:unknown", "round:timeout", "scenario:cut", "scenario:cut-scripted", "scenario:session-scripted", "scenario:restart"} {
+		"round:data", "round:keepalive", "round:unknown", "round:timeout", "scenario:cut", "scenario:cut-scripted", "scenario:session-scripted", "scenario:transfer-scripted", "scenario:transfer-gap-scripted", "republish:loop", "scenario:restart"} {
 		if r.Distribution[b] == 0 {
 			r.Unreached = append(r.Unreached, b)
 		}
